@@ -77,12 +77,12 @@ func includeGraphs(r *Rng) []Project {
 		}
 		out = append(out, p)
 	}
-	mk(map[string]string{"root.jst": "JSIGHT 0.3\nINCLUDE a.jst\n", "a.jst": ""}, "root.jst")                                              // empty file
-	mk(map[string]string{"root.jst": "JSIGHT 0.3\nURL /a\n(\nINCLUDE a.jst\n", "a.jst": ""}, "root.jst")                                   // empty file, open paren
-	mk(map[string]string{"root.jst": "JSIGHT 0.3\nINCLUDE missing.jst\n"}, "root.jst")                                                      // missing
-	mk(map[string]string{"root.jst": "JSIGHT 0.3\nINCLUDE dir\n", "dir/": ""}, "root.jst")                                                  // directory
-	mk(map[string]string{"root.jst": "JSIGHT 0.3\nINCLUDE root.jst\n"}, "root.jst")                                                         // self
-	mk(map[string]string{"root.jst": "JSIGHT 0.3\nINCLUDE a.jst\n", "a.jst": "INCLUDE b.jst\n", "b.jst": "INCLUDE a.jst\n"}, "root.jst")  // cycle
+	mk(map[string]string{"root.jst": "JSIGHT 0.3\nINCLUDE a.jst\n", "a.jst": ""}, "root.jst")                                                                                          // empty file
+	mk(map[string]string{"root.jst": "JSIGHT 0.3\nURL /a\n(\nINCLUDE a.jst\n", "a.jst": ""}, "root.jst")                                                                               // empty file, open paren
+	mk(map[string]string{"root.jst": "JSIGHT 0.3\nINCLUDE missing.jst\n"}, "root.jst")                                                                                                 // missing
+	mk(map[string]string{"root.jst": "JSIGHT 0.3\nINCLUDE dir\n", "dir/": ""}, "root.jst")                                                                                             // directory
+	mk(map[string]string{"root.jst": "JSIGHT 0.3\nINCLUDE root.jst\n"}, "root.jst")                                                                                                    // self
+	mk(map[string]string{"root.jst": "JSIGHT 0.3\nINCLUDE a.jst\n", "a.jst": "INCLUDE b.jst\n", "b.jst": "INCLUDE a.jst\n"}, "root.jst")                                               // cycle
 	mk(map[string]string{"root.jst": "JSIGHT 0.3\nINCLUDE a.jst\nINCLUDE b.jst\n", "a.jst": "INCLUDE c.jst\n", "b.jst": "INCLUDE c.jst\n", "c.jst": fmt.Sprintf(body, 1)}, "root.jst") // diamond (duplicate type)
 	mk(map[string]string{"root.jst": "JSIGHT 0.3\nINCLUDE a.jst // x\n", "a.jst": ""}, "root.jst")
 	mk(map[string]string{"root.jst": "JSIGHT 0.3\nINCLUDE a.jst b\n", "a.jst": ""}, "root.jst")
@@ -139,6 +139,24 @@ func macroGraphs(r *Rng) []Project {
 			}
 			if variant == 2 {
 				b.WriteString("URL /x\n  PASTE @m2\n")
+			}
+			out = append(out, SingleFile([]byte(b.String())))
+		}
+	}
+	// a cycle behind a macro that is not on it (entry defined first or last; pasted before the definitions)
+	for n := 1; n <= 4; n++ {
+		for variant := 0; variant < 2; variant++ {
+			var b strings.Builder
+			b.WriteString("JSIGHT 0.3\n\nPASTE @entry\n\n")
+			entry := "MACRO @entry\n  PASTE @m1\n\n"
+			if variant == 0 {
+				b.WriteString(entry)
+			}
+			for m := 1; m <= n; m++ {
+				fmt.Fprintf(&b, "MACRO @m%d\n  PASTE @m%d\n\n", m, m%n+1)
+			}
+			if variant == 1 {
+				b.WriteString(entry)
 			}
 			out = append(out, SingleFile([]byte(b.String())))
 		}
